@@ -1,9 +1,9 @@
 package harness
 
 import (
+	"fmt"
 	"github.com/wmnsk/go-pfcp/message"
 	"google.golang.org/grpc/codes"
-	"fmt"
 	"net"
 	"time"
 
@@ -16,9 +16,9 @@ import (
 func init() {
 	Register(&PropDef{
 		ID: "C14", QuickRuns: 4800, Level: "exploration",
-		Rule: "one run = 1-3 sessions on the BESS datapath (end markers enabled or disabled) and 4-20 Session Modifications that update FARs: tunnel changes to another gNB / TEID, send-end-marker flag on or off, unknown FAR ids, two FARs in one message, updates of FARs that had no tunnel before, creations. Oracle at the end-marker unix socket: packets decoded in the harness (Ethernet/IPv4/UDP/GTPv1-U): exactly one End Marker per flagged FAR whose update was accepted, addressed to the tunnel the FAR had before the update (peer address, TEID), UDP ports 2152, source = N3 address, and written after the simulated BESS acknowledged the new FAR; none otherwise. One run in four plays hand-overs on the P4Runtime datapath, where end markers leave as PacketOut messages on the stream channel, also after the switch restarted its P4Runtime server (streams break, the channel reads IDLE, the agent sets up a new channel with the next request): exactly one well-formed marker to the old tunnel must reach a live stream. Non-trivial = at least one end marker expected and >20 task switches; distinct = different sequence of (update kind, flag, expected markers). Also: two associations handing over at the same instant; on UP4 single updates of a hand-over refused by the switch.",
+		Rule:   "one run = 1-3 sessions on the BESS datapath (end markers enabled or disabled) and 4-20 Session Modifications that update FARs: tunnel changes to another gNB / TEID, send-end-marker flag on or off, unknown FAR ids, two FARs in one message, updates of FARs that had no tunnel before, creations. Oracle at the end-marker unix socket: packets decoded in the harness (Ethernet/IPv4/UDP/GTPv1-U): exactly one End Marker per flagged FAR whose update was accepted, addressed to the tunnel the FAR had before the update (peer address, TEID), UDP ports 2152, source = N3 address, and written after the simulated BESS acknowledged the new FAR; none otherwise. One run in four plays hand-overs on the P4Runtime datapath, where end markers leave as PacketOut messages on the stream channel, also after the switch restarted its P4Runtime server (streams break, the channel reads IDLE, the agent sets up a new channel with the next request): exactly one well-formed marker to the old tunnel must reach a live stream. Non-trivial = at least one end marker expected and >20 task switches; distinct = different sequence of (update kind, flag, expected markers). Also: two associations handing over at the same instant; on UP4 single updates of a hand-over refused by the switch.",
 		Assume: []string{"the order between the end-marker write and the FAR command is judged by a global stamp taken when the simulated daemon applies the command and when the socket write happens"},
-		Real: CommonReal, Simulated: CommonSim,
+		Real:   CommonReal, Simulated: CommonSim,
 		Scenario: scenarioC14,
 	})
 }
@@ -280,7 +280,6 @@ func scenarioC14(r *Run) {
 	}
 	r.CheckNoPanics("C14")
 }
-
 
 // scenarioC14UP4: end markers on the P4Runtime datapath leave as PacketOut
 // messages on the stream channel. Hand-overs with and without the flag, also
